@@ -138,11 +138,11 @@ def groups(tier):
     n5 = len(e2e.tables("F5"))
     for db in dbsf:
         for opt in ("finite", "finite-mixed"):
-            for lo in range(0, n5, 192):
+            for lo in range(0, n5, 48):
                 if tier == "quick" and (db == "forget" or (db == "forest" and (opt != "finite" or (lo // 192) % 2 == 1))):
                     continue
-                gs.append({"name": "F5-%s-%s-t%d" % (db, opt, lo), "fn": "check_opt", "shape": {"db": db, "opt": opt, "S": "F5", "trange": [lo, lo + 192]},
-                           "cond_timeout": 2400.0, "path_timeout": 120.0, "expect_space": 192, "weight": 192 * 4})
+                gs.append({"name": "F5-%s-%s-t%d" % (db, opt, lo), "fn": "check_opt", "shape": {"db": db, "opt": opt, "S": "F5", "trange": [lo, lo + 48]},
+                           "cond_timeout": 2400.0, "path_timeout": 120.0, "expect_space": 48, "weight": 48 * (20 if lo >= 576 else 5)})
     if tier == "thorough":
         n3 = len(e2e.tables(3))
         for db in dbsf:
